@@ -323,9 +323,12 @@ class PeriodicMessageTask:
         """
         self.bus = bus
         self.period = period
+        # Keep a private copy of the payload, the caller may go on modifying
+        # its buffer in place and update() compares against what was sent
         self.msg = can.Message(is_extended_id=can_id > 0x7FF,
                                arbitration_id=can_id,
-                               data=data, is_remote_frame=remote)
+                               data=None if data is None else bytearray(data),
+                               is_remote_frame=remote)
         self._start()
 
     def _start(self):
